@@ -13,23 +13,7 @@
  */
 #ifndef SCHED_SHIM_H
 #define SCHED_SHIM_H
-#include <stddef.h>
-typedef struct sh_thread { int id; } sh_thread;
-typedef struct sh_mutex { int id; int owner; } sh_mutex;
-typedef struct sh_cond { int id; } sh_cond;
-int  sh_thread_create(sh_thread* t, void* (*fn)(void*), void* arg);
-void sh_thread_join(sh_thread t);
-int  sh_mutex_init(sh_mutex* m);
-void sh_mutex_free(sh_mutex* m);
-void sh_mutex_lock(sh_mutex* m);
-void sh_mutex_unlock(sh_mutex* m);
-int  sh_cond_init(sh_cond* c);
-void sh_cond_free(sh_cond* c);
-void sh_cond_wait(sh_cond* c, sh_mutex* m);
-int  sh_cond_timedwait(sh_cond* c, sh_mutex* m, long long timeout);   /* 0 = timed out */
-void sh_cond_signal(sh_cond* c);
-void sh_point(const char* what);      /* plain scheduling point (e.g. around a shared access) */
-void sh_api(const char* ev, const char* op, long long a, long long b, long long c, long long res);
+#include "sched_api.h"
 #define WASM_THREAD_TYPE sh_thread
 #define WASM_THREAD_CREATE(thread, func, arg) sh_thread_create(thread, func, arg)
 #define WASM_THREAD_JOIN(thread) sh_thread_join(thread)
